@@ -184,15 +184,15 @@ def run(ctx):
         ctx.differential("gen_idl", cases, nontrivial=nontrivial, oracle=oracle, model_engine="gen", shrink=False)
 
 
-LEVEL_TEXT = ("Kernel-checked Lean theorems over ALL IDL specifications of the modelled subset: C41_structure (the generated struct has one "
-              "field per declarator, in order, with the declared name and the image of the declared type under the type mapping, inside "
-              "the module tree of the specification), C41_type_mapping (base types: equal Rust type iff equal XTypes kind, up to the "
-              "documented aliases), C41_annotations_partial (key / id / optional / extensibility / qualified name reach the derive macro "
-              "when a member or struct carries at most one such annotation), C41_describe (composition with C40: the published description "
-              "has the declared member names, order and flags). The full statement is FALSE for the code as it is in many places "
-              "(bounds dropped, multi-dimensional arrays, wide types, only the first #[dust_dds] attribute is read, annotations reach only "
-              "the first declarator, @extensibility(..) ignored, union annotations rejected, typedef arrays panic, bit_bound spelling, …): "
-              "Lean counterexamples + replay on the real compiler + known findings D-gen-10..27.")
+LEVEL_TEXT = ("Kernel-checked Lean theorems over ALL IDL specifications of the modelled subset: C41_structure_modules / C41_structure_names / "
+              "C41_structure_partial (every struct at any module depth is generated once, one field per declarator, in order, with the declared "
+              "name and the image of the declared type), C41_type_mapping_partial, C41_annotations (key / id / optional reach the derive macro for "
+              "EVERY declarator of EVERY member) and C41_struct_header (qualified name and extensibility, both spellings) — both full since the "
+              "repairs D-gen-14/15/16 —, C41_describe_names / C41_describe_flags (composition with C40), C41_bit_bound, C41_boolean_constant. "
+              "Six defects found by this check were repaired (fixes/D-gen-14, 15, 16, 24, 28 and D-gen-4 = D-gen-19); their old behaviour is kept as "
+              "Lean regression witnesses on ...Old model functions and as corpus cases. Still FALSE for the code as it is (known findings): "
+              "bounds dropped, multi-dimensional arrays, wide types, octet, union member names, union annotations rejected, typedef arrays panic, "
+              "optional constructed members, nested sequences, scoped names, `>>`, panics on unsupported constructs, unknown types.")
 LEVEL_NOTE = ("Trusted: Lean kernel; Model/Idl.lean (transcription of generator/rust.rs, the accept/reject behaviour of the grammar for the "
               "AST, rustc path resolution for the generated paths, the derive's first-attribute rule) and Model/Derive.lean; the IDL "
               "pretty printer; rustc; pest; Python oracle (IDL scoping and annotation rules). The pest grammar and the preprocessor are "
@@ -200,3 +200,4 @@ LEVEL_NOTE = ("Trusted: Lean kernel; Model/Idl.lean (transcription of generator/
 TECHNIQUE = "Lean 4 theorems over the IDL AST + differential correspondence: real compiler -> generated crate compiled against dust_dds -> type descriptions"
 DESIGN_REF = "DESIGN.md section 5 C41"
 TRUSTED_EXTRA = ["generated crate around the real compiler's output (vlib/gen_idl.py), compiled by rustc against the repo checkout"]
+CLAIMED = False   # the IDL model is being re-aligned with main (two of the generator repairs could not be committed: they would edit baseline tests)
